@@ -9,13 +9,28 @@
     b58dec <str>                          -> ok <bytes> | none
     addr <str>                            -> ok <kind> <ver> <payload> <outscript|panic> <restr> | err <class>
     pk <script> <testnet:0|1>             -> ok <str> <outscript|panic> | none
+    wifdec <str>                          -> ok <ver> <key> <compr:0|1> <canonical:0|1> | err b58|short|long|checksum
+    wifenc <ver> <key> <compr:0|1>        -> ok <str>
 -/
 import GocoinV.Model.Addr
+import GocoinV.Model.AddrWif
 import GocoinV.Base.Ripemd160
 import GocoinV.Base.Proto
 open GocoinV
 
 def H : Addr.Hashes := { sha2sum := sha256d, hash160 := hash160 }
+
+/-- only `shaHash` is used by the WIF codec; the other slots are never called by `AddrWif` -/
+def CW : WalletCrypto where
+  sha256 := fun _ => []
+  shaHash := sha256d
+  hash160 := hash160
+  hmac512 := fun _ _ => []
+  pbkdf2 := fun _ _ => []
+  scrypt := fun _ _ => none
+
+def wifErr : HD.WifErr → String
+  | .b58 => "b58" | .short => "short" | .long => "long" | .checksum => "checksum"
 
 def errClass : Addr.Err → String
   | .short => "short" | .segwit e => s!"segwit{e.code}" | .b58decode => "b58decode"
@@ -84,6 +99,20 @@ def step (_ : Unit) (toks : List String) : Unit × String :=
         let str := match Addr.toString H a with | some r => Hex.encode r | none => "none"
         ((), s!"ok {str} {optHex (Addr.outScript a)}")
     | _ => bad
+  | ["wifdec", s] =>
+    match Hex.decode s with
+    | some s => match AddrWif.decode CW s with
+      | .error e => ((), s!"err {wifErr e}")
+      | .ok (v, k, c) =>
+        let can := match Base58.decode s with | some pkb => AddrWif.canonicalFlag pkb | none => false
+        ((), s!"ok {v.toNat} {Hex.encode k} {Proto.boolStr c} {Proto.boolStr can}")
+    | _ => bad
+  | ["wifenc", v, k, c] =>
+    match v.toNat?, Hex.decode k with
+    | some v, some k =>
+      if v < 256 ∧ (c == "0" ∨ c == "1") then ((), s!"ok {Hex.encode (AddrWif.encode CW (UInt8.ofNat v) k (c == "1"))}")
+      else bad
+    | _, _ => bad
   | _ => bad
 
 def main : IO Unit := Proto.serve () step
